@@ -127,7 +127,7 @@ def main():
                 rc, out = sh("bin/check %s --tier %s" % (c, t), cwd=VERIF, env=env, timeout=7200)
                 viol = [l for l in out.splitlines() if l.startswith("VIOLATION")]
                 first = [l for l in out.splitlines() if l.strip().startswith("violation:")][:2]
-                res[c + ":" + t] = {"exit": rc, "detected": rc == 1 and bool(viol), "violation_lines": len(viol), "first": first, "wall_s": round(time.time() - t0, 1)}
+                res[c + ":" + t] = {"exit": rc, "detected": rc == 1 and bool(viol), "violation_lines": len(viol), "first": [x[:600] for x in first], "wall_s": round(time.time() - t0, 1)}
                 print("check %s %s -> exit %d, %d VIOLATION lines (%.0fs) %s" % (c, t, rc, len(viol), time.time() - t0, first[:1]))
                 if rc == 2:
                     print(out[-1500:])
